@@ -278,6 +278,118 @@ func quoteList(xs []string) string {
 var sections []func()
 
 // ---------------------------------------------------------------------------
+// codec table (C20): msgpack extension types of package expr
+// ---------------------------------------------------------------------------
+
+func codecTable() {
+	out.WriteString("\n(* ---- codec table: expr/expr.go msgpack.RegisterExt, struct fields, custom decoders ---- *)\n")
+	matches, _ := filepath.Glob(filepath.Join(*repo, "expr", "*.go"))
+	sort.Strings(matches)
+	structs := map[string]*ast.StructType{}
+	decoders := map[string]*ast.FuncDecl{}
+	encoders := map[string]bool{}
+	type reg struct {
+		id  string
+		typ string
+	}
+	var regs []reg
+	for _, m := range matches {
+		if strings.HasSuffix(m, "_test.go") {
+			continue
+		}
+		rel, _ := filepath.Rel(*repo, m)
+		f := parse(rel)
+		ast.Inspect(f, func(n ast.Node) bool {
+			switch x := n.(type) {
+			case *ast.TypeSpec:
+				if st, ok := x.Type.(*ast.StructType); ok {
+					structs[x.Name.Name] = st
+				}
+			case *ast.FuncDecl:
+				if x.Recv != nil && len(x.Recv.List) == 1 {
+					if star, ok := x.Recv.List[0].Type.(*ast.StarExpr); ok {
+						if id, ok := star.X.(*ast.Ident); ok {
+							if x.Name.Name == "DecodeMsgpack" {
+								decoders[id.Name] = x
+							}
+							if x.Name.Name == "EncodeMsgpack" {
+								encoders[id.Name] = true
+							}
+						}
+					}
+				}
+			case *ast.CallExpr:
+				if selectorPath(x.Fun) == "msgpack.RegisterExt" && len(x.Args) == 2 {
+					if lit, ok := x.Args[0].(*ast.BasicLit); ok {
+						if u, ok := x.Args[1].(*ast.UnaryExpr); ok {
+							if cl, ok := u.X.(*ast.CompositeLit); ok {
+								if id, ok := cl.Type.(*ast.Ident); ok {
+									regs = append(regs, reg{lit.Value, id.Name})
+								}
+							}
+						}
+					}
+				}
+			}
+			return true
+		})
+	}
+	var rows []string
+	for _, r := range regs {
+		st := structs[r.typ]
+		var exported, unexported []string
+		if st != nil {
+			for _, fl := range st.Fields.List {
+				if len(fl.Names) == 0 {
+					// embedded field
+					unexported = append(unexported, "embedded:"+selectorPath(fl.Type))
+					continue
+				}
+				for _, n := range fl.Names {
+					if ast.IsExported(n.Name) {
+						exported = append(exported, n.Name)
+					} else {
+						unexported = append(unexported, n.Name)
+					}
+				}
+			}
+		}
+		var assigned []string
+		custom := false
+		if d := decoders[r.typ]; d != nil {
+			custom = true
+			seen := map[string]bool{}
+			ast.Inspect(d.Body, func(n ast.Node) bool {
+				switch x := n.(type) {
+				case *ast.AssignStmt:
+					for _, l := range x.Lhs {
+						p := selectorPath(l)
+						if strings.HasPrefix(p, "e.") && !seen[p] {
+							seen[p] = true
+							assigned = append(assigned, strings.TrimPrefix(p, "e."))
+						}
+					}
+				case *ast.UnaryExpr:
+					// dec.Decode(&e.x, ...)
+					if x.Op == token.AND {
+						p := selectorPath(x.X)
+						if strings.HasPrefix(p, "e.") && !seen[p] {
+							seen[p] = true
+							assigned = append(assigned, strings.TrimPrefix(p, "e."))
+						}
+					}
+				}
+				return true
+			})
+		}
+		rows = append(rows, fmt.Sprintf("(%s, (%s, (%v, (%v, (%s, (%s, %s))))))", r.id, strconv.Quote(r.typ), custom, encoders[r.typ], quoteStrs(exported), quoteStrs(unexported), quoteStrs(assigned)))
+	}
+	fmt.Fprintf(&out, "Definition gen_codec : list (Z * (string * (bool * (bool * (list string * (list string * list string)))))) := [\n  %s].\n", strings.Join(rows, ";\n  "))
+}
+
+func init() { sections = append(sections, codecTable) }
+
+// ---------------------------------------------------------------------------
 // robustness facts (C16): recover() at entry points, checked statement-kind assertions
 // ---------------------------------------------------------------------------
 
